@@ -259,7 +259,7 @@ from . import cli09  # noqa: E402
 
 PROPS["C09"] = {
     "streams": [{"kind": "cli09", "profile": "cli"}],
-    "runs": {"quick": 32, "thorough": 1500},
+    "runs": {"quick": 48, "thorough": 1500},
     "rule": "a generated world (EDF/FIFO/LSF/ILP/TetriSched-Gurobi/TetriSched-CPLEX/Clockwork with a fixed "
             "scheduler runtime; deadline variance, Poisson/Gamma arrivals, conditionals, runtime variance, >=2 resource "
             "types) is written as YAML/JSON + flagfile and the real `python main.py` runs in three fresh interpreters "
@@ -381,3 +381,7 @@ PROPS["C08"]["streams"] = [s_ for s_ in PROPS["C08"]["streams"] if s_.get("kind"
 G_COND_EMPTY = {"profile": "greedy", "opts": {"p_batch_loader": 0, "p_conditionals": 1.0, "p_empty_branch": 0.6,
                                               "p_zero_runtime": 0.0}}
 PROPS["C07"]["streams"] = [G_COND, CH_COND, G_COND_RESOLVE, G_COND_EMPTY]
+
+# ------------------------------------------------------------------ C06: plans that are revised and then retracted
+CH_REPLAN = {"profile": "chaos", "opts": {"p_batch_loader": 0, "chaos_replan": True}}
+PROPS["C06"]["streams"] = PROPS["C06"]["streams"] + [CH_REPLAN]
